@@ -16,6 +16,7 @@ observable behaviour: drained samples, tuples yielded by the schedule, the simul
 request log, the exception that escaped, the `complete` event, the final clock.
 """
 import asyncio
+import json
 import threading
 from fractions import Fraction
 
@@ -137,6 +138,45 @@ def _return_value(out):
     if k == "none":
         return None
     return _mk_exception(out)
+
+
+LOOP_KEYS = ("warmup-iterations", "iterations", "warmup-time-period", "time-period", "ramp-up-time-period")
+
+
+def _spell(v):
+    """file spelling of a loop-control value: {"int": n} -> n, {"float": "p/q"} -> p/q as a float literal (0.0!), None -> null"""
+    if v is None:
+        return None
+    return int(v["int"]) if "int" in v else q2f(v["float"])
+
+
+def track_json(case, op_type):
+    """the track file of a case: one challenge whose schedule is one `parallel` element (or one plain task)"""
+    tr = case["track"]
+    t = case["task"]
+    tasks = []
+    for i, spec in enumerate(tr["tasks"]):
+        d = {"name": f"task-{i}", "operation": "c05-op", "clients": tr["clients"][i]}
+        for k in LOOP_KEYS:
+            if k in spec:
+                d[k] = _spell(spec[k])
+        if i == tr["focus"]:
+            if t["sched"] is not None:
+                d["schedule"] = t["sched"]
+            d.update(tput_params(t.get("tput")))
+        tasks.append(d)
+    if tr.get("parallel") is not None:
+        par = {"tasks": tasks}
+        for k in LOOP_KEYS:
+            if k in tr["parallel"]:
+                par[k] = _spell(tr["parallel"][k])
+        if tr.get("parallel_clients") is not None:
+            par["clients"] = tr["parallel_clients"]
+        schedule = [{"parallel": par}]
+    else:
+        schedule = tasks
+    return json.dumps({"operations": [{"name": "c05-op", "operation-type": op_type}],
+                       "challenges": [{"name": "c05-challenge", "default": True, "schedule": schedule}]})
 
 
 def run_impl(case):
@@ -355,7 +395,20 @@ def run_impl(case):
         )
         c = case["client"]
         whole = [task]  # the challenge's schedule as the loader / allocator see it
-        if case.get("alloc") is not None:
+        if case.get("track") is not None:
+            # the task is read from a track file by the REAL TrackSpecificationReader (loop-control keys in their file spelling,
+            # defaults inherited from the enclosing `parallel` element); its params are the task's JSON object, as in a race
+            from esrally.track import loader
+
+            try:
+                trk = loader.TrackSpecificationReader()("c05-track", json.loads(track_json(case, op_type)), "/tmp")
+            except loader.TrackSyntaxError:
+                out["result"] = "TrackSyntaxError"
+                return out
+            whole = trk.challenges[0].schedule
+            leaves = [lt for el in whole for lt in el]
+            task = leaves[case["track"]["focus"]]
+        if case.get("alloc") is not None and case.get("track") is None:
             # the task is one leaf of a whole schedule; its TaskAllocation comes from the real Allocator
             al = case["alloc"]
             whole = []
@@ -379,6 +432,7 @@ def run_impl(case):
                 raise HarnessError(f"allocation of client {al['k']} of the focus task not found exactly once: {picked}")
             out["alloc_pick"] = [picked[0][0], picked[0][1]]
             alloc = picked[0][2]
+            out["alloc_ids"] = f"alloc:{alloc.client_index_in_task}/{alloc.global_client_index}/{alloc.total_clients}"
         else:
             alloc = driver.TaskAllocation(task=task, client_index_in_task=c["idx"], global_client_index=c["gidx"], total_clients=c["total"])
         # the same Task object is read, rewritten and post-processed by the real track processors before it is scheduled
@@ -1023,14 +1077,13 @@ def run_exec(ctx, case, oracles):
     for mode in ("dbl", "exact"):
         a = dict(case)
         a["mode"] = mode
-        if case.get("alloc") is not None:
-            pick = impl.get("alloc_pick") or [0, 0]
-            a["alloc"] = {"schedule": case["alloc"]["schedule"], "row": pick[0], "pos": pick[1]}
         m = ctx.model("exec", "run", a)
         cms[mode] = canon_model(m)
         if tags is None:
             tags = m.get("tags", [])
     exact = cms["dbl"] == cms["exact"]
+    if impl.get("alloc_ids") is not None and "r" in m and impl["alloc_ids"] not in (tags or []):
+        ctx.diff("TaskAllocation from the Allocator", [t for t in (tags or []) if t.startswith("alloc:")], impl["alloc_ids"])
     if cms["dbl"] != ci:
         keys = [k for k in ci if ci[k] != cms["dbl"][k]]
         ctx.diff("run[dbl]:" + ",".join(keys), {k: cms["dbl"][k] for k in keys}, {k: ci[k] for k in keys})
@@ -1041,7 +1094,7 @@ def run_exec(ctx, case, oracles):
     ctx.count("result:" + ci["result"])
     ctx.count("arith:exact" if exact else "arith:rounded")
     nontrivial = len(impl.get("samples", [])) >= 2
-    ctx.sig([sorted(tags or []), ci["result"], exact], nontrivial=nontrivial)
+    ctx.sig([sorted(t for t in (tags or []) if not t.startswith("alloc:")), ci["result"], exact], nontrivial=nontrivial)
     return impl
 
 
@@ -1054,7 +1107,7 @@ def _raising(case, out):
     return failed and (case["on_error"] == "abort" or k == "connection")
 
 
-NO_RUN = ("InvalidSyntax", "NoScheduler", "RallyAssertionError")
+NO_RUN = ("InvalidSyntax", "NoScheduler", "RallyAssertionError", "TrackSyntaxError")
 
 
 def reported_weight(out):
@@ -1203,6 +1256,19 @@ def effective_spec(case):
     import sys as _sys
 
     t = dict(case["task"])
+    if case.get("track") is not None:
+        # what the track file says: a key the task spells out counts (0 and 0.0 included; null = "nothing"), a key it
+        # leaves out is taken from the enclosing parallel element
+        tr = case["track"]
+        spec = tr["tasks"][tr["focus"]]
+        par = tr.get("parallel") or {}
+        for k, name in zip(LOOP_KEYS, ("warmup_it", "iters", "warmup_t", "period", "ramp_up")):
+            v = spec[k] if k in spec else par.get(k)
+            if name in ("warmup_it", "iters"):
+                t[name] = None if v is None else int(Fraction(v["int"]) if "int" in v else Fraction(v["float"]))
+            else:
+                t[name] = v
+        t["clients"] = tr["clients"][tr["focus"]]
     if case.get("alloc") is not None:
         for e in case["alloc"]["schedule"]:
             for sub in e["tasks"]:
